@@ -29,7 +29,8 @@ import (
 // replaying Streamer that delivers the table in the batches named by P (D=1: every batch carries every
 // column of the table; D=0: only the columns its rows mention; E=1: last batch together with io.EOF) and
 // fetched until EOF exactly as QueryProcessor.GetFullResult does.
-// Out: "ok n=<rows> <row>;…" (rows in order, columns sorted, nulls dropped, "-" = row without values) | "panic" | "err"
+// Out: "ok n=<rows> <row>;… [st=<processor state, single command>]" (rows in order, columns sorted, nulls dropped,
+// "-" = row without values) | "panic" | "err"
 // PropFail (independent of the model):
 //   - output under P ≠ output under the single-batch delivery  → pipe-chunking/<cmd>/<shape>
 //   - single-batch output ≠ the documented meaning (reference evaluator below) → pipe-semantics/<cmd>/<shape>
@@ -362,16 +363,21 @@ type c06Out struct {
 	status string   // ok | panic | err | hang
 	rows   []string // canonical rows
 	msg    string
+	state  string // single command: what the processor remembers afterwards (overlay hook VerifC06State)
 }
 
 func (o c06Out) String() string {
 	if o.status != "ok" {
 		return o.status
 	}
-	if len(o.rows) == 0 {
-		return "ok n=0"
+	st := ""
+	if o.state != "" {
+		st = " st=" + o.state
 	}
-	return fmt.Sprintf("ok n=%d %s", len(o.rows), strings.Join(o.rows, ";"))
+	if len(o.rows) == 0 {
+		return "ok n=0" + st
+	}
+	return fmt.Sprintf("ok n=%d %s%s", len(o.rows), strings.Join(o.rows, ";"), st)
 }
 
 // rows that carry at least one value (what the PropFail comparisons look at)
@@ -460,6 +466,9 @@ func c06Run(cmds []c06Cmd, batches [][]c06Row, cols [][]string, eofWL bool) (out
 				out.rows = append(out.rows, strings.Join(cells, ","))
 			}
 		}
+	}
+	if len(cmds) == 1 {
+		out.state = processor.VerifC06State(top)
 	}
 	return out
 }
@@ -794,7 +803,21 @@ func execPipe(line string) Result {
 	}
 	if want := c06RefCanon(ref); !sh.renameSame && base.valued() != want {
 		who, shape := name, "other"
+		// tail … rename … fillnull-without-fields: the two-pass command reads tail's retained result a second
+		// time after rename has already renamed it in place
+		rereadShape := false
+		for i, a := range op.cmds {
+			for j := i + 1; a.kind == "tail" && j < len(op.cmds); j++ {
+				for k := j + 1; op.cmds[j].kind == "rename" && k < len(op.cmds); k++ {
+					if op.cmds[k].kind == "fillnull" && len(op.cmds[k].fields) == 0 {
+						rereadShape = true
+					}
+				}
+			}
+		}
 		switch {
+		case base.status == "ok" && rereadShape:
+			who, shape = "chain", "tail-result-renamed-in-place-before-second-pass"
 		case base.status == "panic" && sh.absentLater:
 			who, shape = "dedup", "later-field-column-absent-panic"
 		case base.status == "ok" && sh.absentFirst:
@@ -961,9 +984,9 @@ func c06GenCmd(r *rand.Rand, live *[]string, dead map[string]bool, inChain bool,
 					continue
 				}
 			} else {
-				pool := c06ColNames
-				if r.Intn(12) == 0 {
-					pool = append(append([]string{}, pool...), "q")
+				pool := append([]string{}, *live...) // mostly columns of the table
+				if r.Intn(8) == 0 || len(pool) == 0 {
+					pool = append(append([]string{}, c06ColNames...), "q")
 				}
 				fs = c06Pick(r, pool, 1+r.Intn(3))
 				if r.Intn(25) == 0 {
